@@ -49,9 +49,12 @@ static struct {
 	struct op prog[RT_MAXT][MAXOPS + 1]; int nops[RT_MAXT];
 	struct ev log[RT_MAXT][MAXLOG]; int nlog[RT_MAXT];
 	int next_dyn[RT_MAXT];
+	int notify_done[NN];        /* an nsync_note_notify on the note has RETURNED */
+	int wait_on[RT_MAXT];       /* 1 + index of the note the thread is currently waiting on (nsync_note_wait / cancellable cv wait), 0 = none */
+	int busy;                   /* threads currently inside notify / new / free (the tree is only required to be settled when this is 0) */
 } S;
 
-enum { CV_OBS_TRUE = 0, CV_OBS_FALSE, CV_NOTIFIES, CV_FREES, CV_CHILDREN, CV_WAIT_SLEPT, CV_CANCELS, CV_FREED_WITH_CHILDREN, CV_EXPIRY_PAST_MISMATCH, CV_UNTIMED, CV_O4_CHECKED, CV_O5_CHECKED, CV_BORN_NOTIFIED };
+enum { CV_OBS_TRUE = 0, CV_OBS_FALSE, CV_NOTIFIES, CV_FREES, CV_CHILDREN, CV_WAIT_SLEPT, CV_CANCELS, CV_FREED_WITH_CHILDREN, CV_EXPIRY_PAST_MISMATCH, CV_UNTIMED, CV_O4_CHECKED, CV_O5_CHECKED, CV_BORN_NOTIFIED, CV_IDLE };
 
 static int is_anc_or_self (int a, int n) { for (; n >= 0; n = S.parent_of[n]) if (n == a) return (1); return (0); }
 
@@ -84,7 +87,9 @@ static void do_op (int tid, const struct op *o) {
 	switch (o->kind) {
 	case K_NOTIFY:
 		e = log_begin (tid, x, K_NOTIFY);
+		sc_inc (&S.busy);
 		RT_OP ("nsync_note_notify", nsync_note_notify (S.N[x]));
+		sc_set (&S.notify_done[x], 1); sc_dec (&S.busy);
 		log_end (e, 1); rt_cover (CV_NOTIFIES);
 		/* C08: "when nsync_note_notify returns the note itself is notified" */
 		e = log_begin (tid, x, K_ISNOT);
@@ -99,7 +104,9 @@ static void do_op (int tid, const struct op *o) {
 	case K_WAIT_T: case K_WAIT_U: { int q; nsync_time dl = o->kind == K_WAIT_U ? nsync_time_no_deadline : rt_deadline_in (o->dl_ns);
 		if (o->kind == K_WAIT_U) rt_cover (CV_UNTIMED);
 		e = log_begin (tid, x, o->kind);
+		sc_set (&S.wait_on[tid], x + 1);
 		RT_OP ("nsync_note_wait", q = nsync_note_wait (S.N[x], dl));
+		sc_set (&S.wait_on[tid], 0);
 		if (rt_op_sleeps ()) { rt_cover (CV_WAIT_SLEPT); rt_mark_nontrivial (); }
 		log_end (e, q);
 		if (!q && o->kind == K_WAIT_U) rt_violation ("wait-result", "nsync_note_wait", "nsync_note_wait without deadline returned 0");
@@ -109,7 +116,9 @@ static void do_op (int tid, const struct op *o) {
 		nsync_mu_init (&m); nsync_cv_init (&c);
 		nsync_mu_lock (&m);
 		e = log_begin (tid, x, K_CVCANCEL);
+		sc_set (&S.wait_on[tid], x + 1);
 		RT_OP ("nsync_cv_wait_with_deadline", r = nsync_cv_wait_with_deadline (&c, &m, dl, S.N[x]));
+		sc_set (&S.wait_on[tid], 0);
 		if (rt_op_sleeps ()) { rt_cover (CV_WAIT_SLEPT); rt_mark_nontrivial (); }
 		if (r == ECANCELED) { log_end (e, 1); rt_cover (CV_CANCELS); }
 		else { S.nlog[tid]--; if (r == ETIMEDOUT && nsync_time_cmp (rt_now (), dl) < 0) rt_violation ("wait-result", "nsync_cv_wait_with_deadline", "ETIMEDOUT before the deadline"); }
@@ -117,6 +126,7 @@ static void do_op (int tid, const struct op *o) {
 		break; }
 	case K_NEWCHILD: { int c = S.next_dyn[tid], q; nsync_note n;
 		if (c >= NB + 2 * tid + 2 || c >= NN) break;     /* two dynamic slots per thread */
+		sc_inc (&S.busy);
 		S.own_dl[c] = kind_deadline (o->dlk, o->dl_ns);
 		S.dlk[c] = o->dlk;
 		RT_OP ("nsync_note_new", n = nsync_note_new (S.N[x], S.own_dl[c]));
@@ -129,20 +139,39 @@ static void do_op (int tid, const struct op *o) {
 		RT_OP ("nsync_note_is_notified", q = nsync_note_is_notified (n));
 		log_end (e, q);
 		if (q) rt_cover (CV_BORN_NOTIFIED);
-		if (o->sub == 1) { e = log_begin (tid, c, K_NOTIFY); RT_OP ("nsync_note_notify", nsync_note_notify (n)); log_end (e, 1); }
+		if (o->sub == 1) { e = log_begin (tid, c, K_NOTIFY); RT_OP ("nsync_note_notify", nsync_note_notify (n)); sc_set (&S.notify_done[c], 1); log_end (e, 1); }
 		if (!o->keep) {
 			RT_OP ("nsync_note_free", nsync_note_free (n));
 			S.alive[c] = 0; rt_cover (CV_FREES);
 		}
+		sc_dec (&S.busy);
 		break; }
 	case K_FREE: { int i, kids = 0;
 		if (S.owner[x] != tid + 1) rt_fatal ("free of a note not owned");
 		for (i = 0; i < NN; i++) if (__atomic_load_n (&S.alive[i], __ATOMIC_ACQUIRE) && S.parent_of[i] == x) kids++;
 		if (kids) rt_cover (CV_FREED_WITH_CHILDREN);
+		sc_inc (&S.busy);
 		RT_OP ("nsync_note_free", nsync_note_free (S.N[x]));
+		sc_dec (&S.busy);
 		S.alive[x] = 0; rt_cover (CV_FREES); rt_mark_nontrivial ();
 		break; }
 	default: break;
+	}
+}
+
+/* Mode B idle oracle: nothing is runnable, only deadlines are pending, and no thread is inside a notify / new / free.
+   Then every notification that has returned has reached all descendants and released every thread waiting on them:
+   a waiter on a note with a completed notify on itself or an original ancestor may not still be asleep (C08),
+   even if its own deadline would rescue it later.  */
+static void idle_check (void) {
+	int t, a;
+	rt_cover (CV_IDLE);
+	if (sc_get (&S.busy) != 0) return;
+	for (t = 0; t < S.nthreads; t++) {
+		int x = sc_get (&S.wait_on[t]) - 1;
+		if (x < 0 || !rt_thread_blocked (t)) continue;
+		for (a = 0; a < NN; a++) if (sc_get (&S.notify_done[a]) && is_anc_or_self (a, x))
+			rt_violation ("waiter-asleep-after-notify", rt_thread_op (t), "idle instant (only deadlines pending, no notify/new/free in progress): nsync_note_notify on note %d has returned, yet thread %d is still asleep in %s on note %d%s", a, t, rt_thread_op (t), x, a == x ? "" : " (a descendant)");
 	}
 }
 
@@ -157,6 +186,7 @@ static int setup (uint64_t seed) {
 	int x, t, i, maxt = (int) rt_param ("maxthreads", 4);
 	(void) seed;
 	S.allow_free = (int) rt_param ("free", 1);
+	memset (S.notify_done, 0, sizeof (S.notify_done)); memset (S.wait_on, 0, sizeof (S.wait_on)); S.busy = 0;
 	S.nbase = 3 + (int) rt_rand_n (NB - 2);
 	S.nthreads = 2 + (int) rt_rand_n ((unsigned) (maxt - 1));
 	for (x = 0; x < NN; x++) { S.N[x] = NULL; S.parent_of[x] = -1; S.owner[x] = 0; S.alive[x] = 0; S.dlk[x] = 0; S.own_dl[x] = nsync_time_no_deadline; }
@@ -278,6 +308,6 @@ static void pinit (void) {
 	rt_cover_name (CV_OBS_TRUE, "observations_notified"); rt_cover_name (CV_OBS_FALSE, "observations_not_notified"); rt_cover_name (CV_NOTIFIES, "notify_calls");
 	rt_cover_name (CV_FREES, "frees_by_workers"); rt_cover_name (CV_CHILDREN, "children_created_by_workers"); rt_cover_name (CV_WAIT_SLEPT, "waits_that_slept");
 	rt_cover_name (CV_CANCELS, "cv_waits_cancelled"); rt_cover_name (CV_FREED_WITH_CHILDREN, "frees_of_notes_with_live_children"); rt_cover_name (CV_EXPIRY_PAST_MISMATCH, "expiry_mismatch_already_past");
-	rt_cover_name (CV_UNTIMED, "untimed_waits"); rt_cover_name (CV_O4_CHECKED, "propagation_checks"); rt_cover_name (CV_O5_CHECKED, "untriggered_checks"); rt_cover_name (CV_BORN_NOTIFIED, "children_born_notified");
+	rt_cover_name (CV_UNTIMED, "untimed_waits"); rt_cover_name (CV_O4_CHECKED, "propagation_checks"); rt_cover_name (CV_O5_CHECKED, "untriggered_checks"); rt_cover_name (CV_BORN_NOTIFIED, "children_born_notified"); rt_cover_name (CV_IDLE, "idle_instants_checked");
 }
-rt_scenario rt_scen = { "notes", "C09", 4, &pinit, &setup, &body, &check, &teardown, &describe, NULL, &dump_state, NULL };
+rt_scenario rt_scen = { "notes", "C09", 4, &pinit, &setup, &body, &check, &teardown, &describe, NULL, &dump_state, NULL, &idle_check };
